@@ -299,6 +299,27 @@ func (r *rewriter) temp(prefix string) *ast.Ident {
 	return ast.NewIdent(fmt.Sprintf("__%s%d", prefix, r.tmp))
 }
 
+// siteFn is file:function:line (signatures use file:function, which survives line shifts).
+func (r *rewriter) siteFn(p token.Pos) string {
+	pos := r.fset.Position(p)
+	fn := "?"
+	for _, d := range r.file.Decls {
+		if fd, ok := d.(*ast.FuncDecl); ok && fd.Pos() <= p && p <= fd.End() {
+			fn = fd.Name.Name
+			if fd.Recv != nil && len(fd.Recv.List) == 1 {
+				t := fd.Recv.List[0].Type
+				if st, ok := t.(*ast.StarExpr); ok {
+					t = st.X
+				}
+				if id, ok := t.(*ast.Ident); ok {
+					fn = id.Name + "." + fn
+				}
+			}
+		}
+	}
+	return fmt.Sprintf("%s:%s:%d", r.fname, fn, pos.Line)
+}
+
 func (r *rewriter) site(p token.Pos) string {
 	pos := r.fset.Position(p)
 	return fmt.Sprintf("%s:%d", r.fname, pos.Line)
@@ -449,7 +470,7 @@ func (r *rewriter) rewriteSelect(sel *ast.SelectStmt) ast.Stmt {
 	if hasDefault {
 		hd = "true"
 	}
-	args := append([]ast.Expr{str(r.site(sel.Pos())), ast.NewIdent(hd)}, cases...)
+	args := append([]ast.Expr{str(r.siteFn(sel.Pos())), ast.NewIdent(hd)}, cases...)
 	sw.Tag = call(r.vsSel("Select"), args...)
 	block.List = append(block.List, sw)
 	return block
